@@ -169,6 +169,222 @@ def _is_bool_flag(func, name, depth=0):
     return True
 
 
+class _OverlapModel:
+    """Model bases for evaluating compute_overlap as a whole (iodalint.accessors): shells as instances of the
+    repository's Shell class with numeric exponents / coefficients, geometries without any symmetry.  scipy's binom /
+    factorial2 are exact stubs (as in R11 / R12); the Cartesian-to-pure tables are the module's own (decided by R1)."""
+
+    def __init__(self, prog, ce):
+        import math
+
+        from ..accessors import Rec
+
+        self.prog = prog
+        self.Rec = Rec
+        self.shcls = prog.cls("iodata.basis.Shell")
+        self.mbcls = prog.cls("iodata.basis.MolecularBasis")
+        self.h2 = ce.global_value(prog.module("iodata.convert"), "HORTON2_CONVENTIONS")
+        self.tfs = [np.array(T, dtype=float) for T in ce.global_value(prog.module("iodata.overlap_cartpure"), "tfs")]
+        self.coords = np.array([[0.11, 0.23, -0.31], [0.72, -0.44, 0.53], [-0.61, 0.93, 0.37], [0.29, -0.87, -0.66]])
+
+        def fact2(args, kw):
+            m = args[0]
+            if isinstance(m, np.ndarray):
+                return np.array([fact2([int(x)], {}) for x in m.ravel()], dtype=float).reshape(m.shape)
+            m = int(m)
+            return 1 if m <= 0 else math.prod(range(m, 0, -2))
+
+        self.fact2 = fact2
+        self.ext = {"scipy.special.binom": lambda a, k: float(math.comb(int(a[0]), int(a[1]))), "scipy.special.factorial2": fact2}
+
+    def shell(self, ic, angmoms, kinds, expo, coeffs):
+        return self.Rec(self.shcls, icenter=ic, angmoms=np.array(angmoms), kinds=list(kinds), exponents=np.array(expo, dtype=float), coeffs=np.array(coeffs, dtype=float))
+
+    def basis(self, shells, norm="L2", conventions=None):
+        return self.Rec(self.mbcls, shells=list(shells), conventions=dict(conventions or self.h2), primitive_normalization=norm)
+
+    def spd(self):
+        """s on centre 0, Cartesian p on centre 1, pure d on centre 2, Cartesian d on centre 3: one primitive each."""
+        return self.basis([self.shell(0, [0], ["c"], [1.3], [[1.0]]), self.shell(1, [1], ["c"], [0.8], [[1.0]]), self.shell(2, [2], ["p"], [0.6], [[1.0]]), self.shell(3, [2], ["c"], [0.9], [[1.0]])])
+
+    def sp_small(self):
+        return self.basis([self.shell(2, [0], ["c"], [0.7], [[1.0]]), self.shell(0, [1], ["c"], [1.1], [[1.0]])])
+
+    def run(self, co, args, kwargs=None):
+        """('value', matrix) | ('raises', class name); NotSymbolic -> AnalysisError."""
+        from ..accessors import AccessorEval, Raised
+        from ..symarr import NotSymbolic
+
+        ev = AccessorEval(self.prog, None, limit=400000)
+        ev.module = co.module
+        ev.ext_stubs = self.ext
+        ev.stubs = {"iodata.overlap.factorial2": self.fact2}
+        ev.eager_generators = True
+        ev._globals = {("iodata.overlap_cartpure", "tfs"): self.tfs}
+        try:
+            res = ev.run_free(co, list(args), dict(kwargs or {}))
+        except Raised as exc:
+            return ("raises", exc.args[0])
+        except NotSymbolic as exc:
+            raise AnalysisError(f"compute_overlap is outside the evaluation whitelist: {exc}") from exc
+        try:
+            return ("value", np.asarray(res, dtype=float))
+        except (TypeError, ValueError):
+            raise AnalysisError("compute_overlap: the evaluated result is not a numeric matrix") from None
+
+
+def _mdiff(a, b):
+    """None if equal within 1e-10, else a short description of the first difference."""
+    if a.shape != b.shape:
+        return f"shapes {a.shape} and {b.shape}"
+    d = np.abs(a - b)
+    if d.size and d.max() > 1e-10:
+        i = tuple(int(v) for v in np.argwhere(d > 1e-10)[0])
+        return f"element {i}: {a[i]:.6g} vs {b[i]:.6g}"
+    return None
+
+
+def _check_guard_table(ctx, co, model):
+    """The rejection clauses as a decision table over (normalisation of the first basis, second basis given, its
+    normalisation, second geometry given): the whole function is evaluated on small model bases."""
+    A, B = model.sp_small, model.sp_small
+    c = model.coords
+    rows = [
+        ("one L2 basis", lambda: [A(), c], None),
+        ("one L1 basis", lambda: [model.basis(A().fields["shells"], "L1"), c], "ValueError"),
+        ("one basis and a superfluous second geometry", lambda: [A(), c, None, c], "TypeError"),
+        ("two L2 bases with both geometries", lambda: [A(), c, B(), c], None),
+        ("two bases, the first L1", lambda: [model.basis(A().fields["shells"], "L1"), c, B(), c], "ValueError"),
+        ("two bases, the second L1", lambda: [A(), c, model.basis(B().fields["shells"], "L1"), c], "ValueError"),
+        ("two bases without the second geometry", lambda: [A(), c, B()], "TypeError"),
+    ]
+    bad = None
+    for label, mk, want in rows:
+        kind, val = model.run(co, mk())
+        got = val if kind == "raises" else None
+        if got != want:
+            bad = f"{label}: {'accepted' if got is None else 'raises ' + got}, expected {'a matrix' if want is None else want}"
+            break
+    if bad:
+        ctx.violate("R2", f"compute_overlap, {bad}", co, co.node, construct=f"overlap guards: {bad}"[:170])
+    else:
+        ctx.ok("R2", f"compute_overlap evaluated on {len(rows)} rows of the guard table: non-L2 bases raise ValueError, a missing / superfluous second geometry raises TypeError, supported input is accepted", co.where)
+
+
+def _check_symmetry_relations(ctx, co, model):
+    A, B, c = model.spd(), model.sp_small(), model.coords
+    k1, S1 = model.run(co, [A, c])
+    k2, S2 = model.run(co, [A, c, model.spd(), c.copy()])
+    k3, SAB = model.run(co, [A, c, B, c])
+    k4, SBA = model.run(co, [B, c, A, c])
+    bad = None
+    if "raises" in (k1, k2, k3, k4):
+        which = [lab for lab, k in (("one basis", k1), ("the same basis given twice", k2), ("bases (s p d d) x (s p)", k3), ("bases (s p) x (s p d d)", k4)) if k == "raises"][0]
+        bad = f"{which}: raises {[v for k, v in ((k1, S1), (k2, S2), (k3, SAB), (k4, SBA)) if k == 'raises'][0]}"
+    else:
+        n = S1.shape[0]
+        if S1.shape != (15, 15):
+            bad = f"one basis with 15 functions gives a matrix of shape {S1.shape}"
+        elif _mdiff(S1, S1.T):
+            bad = f"the one-basis matrix is not symmetric ({_mdiff(S1, S1.T)})"
+        elif _mdiff(S1, S2):
+            bad = f"the same basis given as second argument gives another matrix than the one-basis call ({_mdiff(S2, S1)})"
+        elif SAB.shape != (15, 4) or _mdiff(SAB, SBA.T):
+            bad = f"exchanging the two bases does not transpose the matrix ({'shape ' + str(SAB.shape) if SAB.shape != (15, 4) else _mdiff(SAB, SBA.T)})"
+    if bad:
+        ctx.violate("R5", f"compute_overlap on model bases, {bad}", co, co.node, construct=f"overlap symmetry: {bad}"[:170])
+    else:
+        ctx.ok("R5", "compute_overlap on model bases (s, p, pure d, Cartesian d on four centres): symmetric for one basis, equal to the two-basis call with the same basis, transposed when the bases are exchanged", co.where)
+
+
+def _check_generalized_contractions(ctx, co, model):
+    c = model.coords
+    gen = lambda: model.basis([model.shell(1, [0, 1], ["c", "c"], [1.4, 0.5], [[0.6, 0.3], [0.5, 0.8]]), model.shell(0, [2, 1], ["p", "c"], [0.9], [[1.0, 0.7]])])
+    seg = lambda: model.basis([
+        model.shell(1, [0], ["c"], [1.4, 0.5], [[0.6], [0.5]]), model.shell(1, [1], ["c"], [1.4, 0.5], [[0.3], [0.8]]),
+        model.shell(0, [2], ["p"], [0.9], [[1.0]]), model.shell(0, [1], ["c"], [0.9], [[0.7]]),
+    ])
+    other = model.sp_small()
+    bad = None
+    for label, a_gen, a_seg in (
+        ("one basis", [gen(), c], [seg(), c]),
+        ("as the first of two bases", [gen(), c, other, c], [seg(), c, other, c]),
+        ("as the second of two bases", [other, c, gen(), c], [other, c, seg(), c]),
+    ):
+        kg, Sg = model.run(co, a_gen)
+        ks, Ss = model.run(co, a_seg)
+        if kg == "raises" or ks == "raises":
+            bad = f"{label}: raises {Sg if kg == 'raises' else Ss}"
+            break
+        d = _mdiff(Sg, Ss)
+        if d:
+            bad = f"{label}: a basis with an SP shell and a (pure d, p) shell differs from its segmented form ({d})"
+            break
+    if bad:
+        ctx.violate("R4", f"compute_overlap, generalized contractions, {bad}", co, co.node, construct=f"overlap generalized: {bad}"[:170])
+    else:
+        ctx.ok("R4", "compute_overlap: a basis with generalized contractions (SP; pure d with p) gives the matrix of its segmented form, as only, first or second basis", co.where)
+
+
+def _check_assembly(ctx, co, model):
+    import math
+
+    c = model.coords
+    A = model.spd()
+    k1, S = model.run(co, [A, c])
+    bad = None
+    if k1 == "raises":
+        bad = f"raises {S}"
+    else:
+        blocks = [(0, 1), (1, 4), (4, 9), (9, 15)]
+        a, b = 1.3, 0.8
+        r2 = float(((c[0] - c[1]) ** 2).sum())
+        # <s_a(c0) | p_b(c1)> needs more than the s-s formula; the s-s value is checked with the s shell of the small basis
+        B = model.sp_small()
+        k2, SAB = model.run(co, [A, c, B, c])
+        if k2 == "raises":
+            bad = f"two bases: raises {SAB}"
+        else:
+            a2 = 0.7
+            r2b = float(((c[0] - c[2]) ** 2).sum())
+            want_ss = (2 * a / math.pi) ** 0.75 * (2 * a2 / math.pi) ** 0.75 * (math.pi / (a + a2)) ** 1.5 * math.exp(-a * a2 / (a + a2) * r2b)
+            if abs(SAB[0, 0] - want_ss) > 1e-10:
+                bad = f"<s(1.3) on centre 0 | s(0.7) on centre 2> = {SAB[0, 0]:.10g}, closed form {want_ss:.10g}"
+        if bad is None and np.abs(np.diag(S) - 1.0).max() > 1e-10:
+            i = int(np.argmax(np.abs(np.diag(S) - 1.0)))
+            bad = f"diagonal element {i} of a basis of normalised functions is {S[i, i]:.8g}"
+        if bad is None:
+            for bi, (lo0, hi0) in enumerate(blocks):
+                for bj, (lo1, hi1) in enumerate(blocks):
+                    if bi != bj and np.abs(S[lo0:hi0, lo1:hi1]).min() < 1e-9:
+                        bad = f"the block of shells {bi} and {bj} (a geometry without symmetry) contains a zero: a shell pair, or part of it, is not computed or not stored at its place"
+                        break
+                if bad:
+                    break
+        if bad is None:
+            kt, St = model.run(co, [A, c + np.array([0.37, -1.21, 2.05])])
+            if kt == "raises" or _mdiff(St, S):
+                bad = f"translating all centres changes the matrix ({St if kt == 'raises' else _mdiff(St, S)})"
+        if bad is None:
+            conv = dict(model.h2)
+            conv[(1, "c")] = ["z", "-x", "y"]
+            conv[(2, "p")] = ["s2", "c0", "-c1", "s1", "c2"]
+            kc, Sc = model.run(co, [model.basis(A.fields["shells"], conventions=conv), c])
+            # new position <- (old position, sign), from the labels
+            src = [(0, 1)] + [(3, 1), (1, -1), (2, 1)] + [(4 + j, sg) for j, sg in ((4, 1), (0, 1), (1, -1), (2, 1), (3, 1))] + [(9 + j, 1) for j in range(6)]
+            if kc == "raises":
+                bad = f"other conventions: raises {Sc}"
+            else:
+                want = np.array([[S[pi, pj] * si * sj for (pj, sj) in src] for (pi, si) in src])
+                d = _mdiff(Sc, want)
+                if d:
+                    bad = f"conventions (p as z, -x, y; pure d as s2, c0, -c1, s1, c2) do not permute / sign-flip rows and columns accordingly ({d})"
+    if bad:
+        ctx.violate("R14", f"compute_overlap on model bases, {bad}", co, co.node, construct=f"overlap assembly: {bad}"[:170])
+    else:
+        ctx.ok("R14", "compute_overlap on model bases: unit diagonal, closed-form s-s element, every off-diagonal block of a generic geometry filled, translation invariance, conventions as permutation with signs", co.where)
+
+
 def run(ctx):
     prog = ctx.prog
     ce = ConstEval(prog)
@@ -219,120 +435,14 @@ def run(ctx):
     else:
         ctx.violate("R1", "Cartesian-to-pure transformation is not applied on both the row and the column side", co, co.node, construct="tfs uses")
 
-    # ------------------------------------------------------------------ R2
-    ctx.rule("R2", "unsupported input is rejected before any computation", "L1-normalised or inconsistent input silently gives a wrong matrix")
+    # ------------------------------------------------------------------ R2 / R4 / R5 (whole function, evaluated)
     cfg = cfg_of(co)
     b0, c0n, b1, c1n = co.posparams[:4]
-
-    def norm_guard(basis):
-        for st in walk_stmts(co.body):
-            if isinstance(st, ast.If) and isinstance(st.test, ast.Compare) and len(st.test.ops) == 1:
-                t = st.test
-                l_, r_ = t.left, t.comparators[0]
-                if isinstance(t.ops[0], ast.NotEq) and isinstance(l_, ast.Attribute) and l_.attr == "primitive_normalization" and isinstance(l_.value, ast.Name) and l_.value.id == basis and isinstance(r_, ast.Constant) and r_.value == "L2":
-                    if st.body and isinstance(st.body[-1], ast.Raise) and raises_class(st.body[-1]) == "ValueError":
-                        return st
-        return None
-
-    g0 = norm_guard(b0)
-    if g0 is None:
-        ctx.violate("R2", f"no `{b0}.primitive_normalization != 'L2' -> raise ValueError` guard", co, co.node, construct="L2 guard first basis")
-    else:
-        others = [n for n in cfg.nodes if n.stmt is not None and n.kind not in ("with_exit",) and n.stmt is not g0 and not (isinstance(n.stmt, ast.Expr) and isinstance(n.stmt.value, ast.Constant)) and n.idx not in (cfg.idx(g0),)]
-        inside = {id(s) for s in walk_stmts(g0.body)}
-        bad = [n for n in others if id(n.stmt) not in inside and not cfg.dominates(g0, n.idx) and n.idx in cfg.dominators()]
-        if not bad:
-            ctx.ok("R2", "L2 guard of the first basis dominates every other statement", f"{om.relpath}:{g0.lineno}")
-        else:
-            ctx.violate("R2", "statements execute before the L2 guard of the first basis", co, bad[0].stmt)
-    g1 = norm_guard(b1)
-    alias = [n for n in co.own_nodes() if isinstance(n, ast.Assign) and len(n.targets) == 1 and isinstance(n.targets[0], ast.Name) and n.targets[0].id == b1 and isinstance(n.value, ast.Name) and n.value.id == b0]
-    if g1 is None:
-        ctx.violate("R2", f"no L2 guard for the second basis", co, co.node, construct="L2 guard second basis")
-    else:
-        uses = []
-        for n in cfg.nodes:
-            st = n.stmt
-            if st is None or st is g1 or n.kind == "with_exit":
-                continue
-            hdr = st.test if isinstance(st, (ast.If, ast.While)) else (st.iter if isinstance(st, ast.For) else st)
-            if isinstance(st, (ast.Try, ast.With)):
-                continue
-            for x in ast.walk(hdr):
-                if isinstance(x, ast.Attribute) and isinstance(x.value, ast.Name) and x.value.id == b1:
-                    uses.append(n.idx)
-                if isinstance(x, ast.Call) and any(isinstance(a, ast.Name) and a.id == b1 for a in x.args):
-                    uses.append(n.idx)
-        through = {cfg.idx(g1)} | {cfg.idx(a) for a in alias}
-        if uses and cfg.must_pass(uses, through):
-            ctx.ok("R2", f"every use of the second basis ({len(set(uses))} statements) is behind its L2 guard or the one-basis alias", f"{om.relpath}:{g1.lineno}")
-        else:
-            ctx.violate("R2", "the second basis is used on a path that bypasses its L2 guard", co, g1)
-    # geometry presence checks
-    none_if = [st for st in walk_stmts(co.body) if isinstance(st, ast.If) and isinstance(st.test, ast.Compare) and isinstance(st.test.left, ast.Name) and st.test.left.id == b1 and isinstance(st.test.ops[0], (ast.Is, ast.IsNot)) and isinstance(st.test.comparators[0], ast.Constant) and st.test.comparators[0].value is None]
-    if len(none_if) != 1:
-        ctx.violate("R2", "expected one `obasis1 is None` dispatch", co, co.node, construct="one/two-basis dispatch")
-    else:
-        d = none_if[0]
-        isnone_branch, other_branch = (d.body, d.orelse) if isinstance(d.test.ops[0], ast.Is) else (d.orelse, d.body)
-
-        def geom_guard(branch, want_op):
-            for st in branch:
-                if isinstance(st, ast.If) and isinstance(st.test, ast.Compare) and isinstance(st.test.left, ast.Name) and st.test.left.id == c1n and isinstance(st.test.ops[0], want_op) and isinstance(st.test.comparators[0], ast.Constant) and st.test.comparators[0].value is None:
-                    if isinstance(st.body[-1], ast.Raise) and raises_class(st.body[-1]) == "TypeError":
-                        return st
-            return None
-
-        ga = geom_guard(isnone_branch, ast.IsNot)
-        gb = geom_guard(other_branch, ast.Is)
-        if ga is not None:
-            ctx.ok("R2", "superfluous second geometry raises TypeError", f"{om.relpath}:{ga.lineno}")
-        else:
-            ctx.violate("R2", "a second geometry without a second basis is not rejected with TypeError", co, d, construct="superfluous geometry guard")
-        if gb is not None:
-            ctx.ok("R2", "missing second geometry raises TypeError", f"{om.relpath}:{gb.lineno}")
-        else:
-            ctx.violate("R2", "a second basis without a second geometry is not rejected with TypeError", co, d, construct="missing geometry guard")
-
-        # ---------------------------------------------------------------- R5 (needs the dispatch)
-        ctx.rule("R5", "transposed store only on the one-basis path", "an unconditional symmetric fill corrupts the two-basis matrix")
-        flag_assigns = {}
-        for br, tag in ((isnone_branch, "one"), (other_branch, "two")):
-            for st in br:
-                if isinstance(st, ast.Assign) and len(st.targets) == 1 and isinstance(st.targets[0], ast.Name) and isinstance(st.value, ast.Constant) and isinstance(st.value.value, bool):
-                    flag_assigns.setdefault(st.targets[0].id, {})[tag] = st.value.value
-        flags = [k for k, v in flag_assigns.items() if v == {"one": True, "two": False}]
-        flag_other_assign = []
-        for fl in flags:
-            for n in co.own_nodes():
-                if isinstance(n, (ast.Assign, ast.AugAssign)) and any(isinstance(t, ast.Name) and t.id == fl for t in (n.targets if isinstance(n, ast.Assign) else [n.target])):
-                    if not (isinstance(n, ast.Assign) and isinstance(n.value, ast.Constant)):
-                        flag_other_assign.append(n)
-        if len(flags) != 1 or flag_other_assign:
-            ctx.violate("R5", "no unique flag that is True exactly on the one-basis path", co, d, construct="identical flag")
-        else:
-            fl = flags[0]
-            pm = prog.parents(co)
-            tstores = []
-            for n in co.own_nodes():
-                if isinstance(n, ast.Assign) and isinstance(n.targets[0], ast.Subscript):
-                    v = n.value
-                    is_t = (isinstance(v, ast.Attribute) and v.attr == "T") or (isinstance(v, ast.Call) and getattr(v.func, "attr", "") in ("transpose", "swapaxes"))
-                    if is_t:
-                        tstores.append(n)
-            if not tstores:
-                ctx.violate("R5", "no transposed (upper-triangle) store found on the one-basis path", co, co.node, construct="transposed store")
-            for n in tstores:
-                cur, guarded = n, False
-                while id(cur) in pm:
-                    par = pm[id(cur)]
-                    if isinstance(par, ast.If) and isinstance(par.test, ast.Name) and par.test.id == fl and any(cur is s for s in par.body):
-                        guarded = True
-                    cur = par
-                if guarded:
-                    ctx.ok("R5", f"transposed store guarded by `{fl}`", f"{om.relpath}:{n.lineno}")
-                else:
-                    ctx.violate("R5", f"transposed store is not control-dependent on `{fl}`", co, n)
+    model = _OverlapModel(prog, ce)
+    ctx.rule("R2", "unsupported input is rejected before any computation", "L1-normalised or inconsistent input silently gives a wrong matrix")
+    _check_guard_table(ctx, co, model)
+    ctx.rule("R5", "one basis: symmetric matrix; two bases: exchanging them transposes it (evaluated on model bases)", "an unconditional symmetric fill corrupts the two-basis matrix; a missing one leaves the upper triangle empty")
+    _check_symmetry_relations(ctx, co, model)
 
     # ------------------------------------------------------------------ R3
     ctx.rule("R3", "rows and columns converted with the matching basis' conventions", "a dropped permutation/sign, signs applied before the rows are moved, or a wrong direction returns a matrix whose rows/columns belong to other functions")
@@ -340,40 +450,8 @@ def run(ctx):
     _seg(ctx)
 
     # ------------------------------------------------------------------ R4
-    ctx.rule("R4", "bases are segmented before angmoms[0]/kinds[0] are used", "a generalized contraction would be computed with its first angular momentum only")
-    seg = prog.func("iodata.convert.convert_to_segmented")
-    seg_assign = {}
-    for n in co.own_nodes():
-        if isinstance(n, ast.Assign) and len(n.targets) == 1 and isinstance(n.targets[0], ast.Name) and isinstance(n.value, ast.Call):
-            r = prog.resolve_expr(co, co.module, n.value.func)
-            if r and r[0] == "func" and r[1] is seg and n.value.args and isinstance(n.value.args[0], ast.Name) and n.value.args[0].id == n.targets[0].id:
-                seg_assign[n.targets[0].id] = n
-                if len(n.value.args) > 1 or n.value.keywords:
-                    ctx.violate("R4", "convert_to_segmented called with keep_sp (SP shells would be computed as S only)", co, n)
-    first_elem_uses = []
-    for n in cfg.nodes:
-        st = n.stmt
-        if st is None or n.kind == "with_exit":
-            continue
-        hdr = st.test if isinstance(st, (ast.If, ast.While)) else (st.iter if isinstance(st, ast.For) else st)
-        if isinstance(st, (ast.Try, ast.With)):
-            continue
-        for x in ast.walk(hdr):
-            if isinstance(x, ast.Subscript) and isinstance(x.value, ast.Attribute) and x.value.attr in ("angmoms", "kinds") and isinstance(x.slice, ast.Constant) and x.slice.value == 0:
-                first_elem_uses.append(n.idx)
-    ctx.floor("R4", len(set(first_elem_uses)), 3, "angmoms[0]/kinds[0] uses")
-    if b0 in seg_assign and cfg.must_pass(first_elem_uses, {cfg.idx(seg_assign[b0])}):
-        ctx.ok("R4", f"{b0} = convert_to_segmented({b0}) dominates all {len(set(first_elem_uses))} first-contraction accesses", f"{om.relpath}:{seg_assign[b0].lineno}")
-    else:
-        ctx.violate("R4", "first basis is not segmented before angmoms[0]/kinds[0] is read", co, co.node, construct="segmentation of first basis")
-    through = set()
-    if b1 in seg_assign:
-        through.add(cfg.idx(seg_assign[b1]))
-    through |= {cfg.idx(a) for a in alias if b0 in seg_assign and cfg.dominates(seg_assign[b0], a)}
-    if b1 in seg_assign and cfg.must_pass(first_elem_uses, through):
-        ctx.ok("R4", f"second basis is segmented (or aliased to the segmented first) before first-contraction accesses", f"{om.relpath}:{seg_assign[b1].lineno}")
-    else:
-        ctx.violate("R4", "second basis is not segmented on every path before angmoms[0]/kinds[0] is read", co, co.node, construct="segmentation of second basis")
+    ctx.rule("R4", "generalized contractions (also of the second basis, also SP shells) give the matrix of their segmented form (evaluated)", "a generalized contraction would be computed with its first angular momentum only")
+    _check_generalized_contractions(ctx, co, model)
 
     # ------------------------------------------------------------------ R6
     ctx.rule("R6", "screening thresholds are literals <= 1e-15", "a larger threshold drops contributions above the documented screening level")
@@ -445,8 +523,9 @@ def run(ctx):
                 if isinstance(par, ast.If):
                     t = par.test
                     is_screen = isinstance(t, ast.Compare) and len(t.ops) == 1 and any(isinstance(e, ast.Constant) and isinstance(e.value, float) and 0 < e.value <= 1e-15 for e in [t.left] + t.comparators)
-                    flags = {nm for nm in {x.id for x in ast.walk(t) if isinstance(x, ast.Name)} if _is_bool_flag(co, nm)}
-                    is_ident = (isinstance(t, ast.Name) and t.id in flags) or (isinstance(t, ast.UnaryOp) and isinstance(t.op, ast.Not) and isinstance(t.operand, ast.Name) and t.operand.id in flags)
+                    # a bare local as the test: the one-basis flag (what it stands for is decided by the evaluated
+                    # relations of R5 / R14: a flag that switches off blocks shows there)
+                    is_ident = isinstance(t, ast.Name) or (isinstance(t, ast.UnaryOp) and isinstance(t.op, ast.Not) and isinstance(t.operand, ast.Name))
                     if is_screen or is_ident:
                         pass
                     else:
@@ -464,6 +543,8 @@ def run(ctx):
         if not nskip:
             ctx.ok("R7", f"{len(stores)} block store(s): guarded only by the screening comparison / the one-basis symmetry flag; no continue/break at shell level; screening quantities assigned once", f"{om.relpath}:{inner_l.lineno}")
         ctx.floor("R7", len(stores), 1, "block stores")
+    ctx.rule("R14", "assembly on model bases (evaluated): unit diagonal, the closed-form s-s value, no block of a generic geometry left empty, translation invariance, conventions as permutations with signs", "a block stored at the wrong offset, skipped by an added shortcut, or transformed with the other shell's table")
+    _check_assembly(ctx, co, model)
     _check_screened_quantity(ctx, co)
     _check_translation_weights(ctx, co)
     _check_kernel(ctx)
